@@ -547,6 +547,8 @@ func (eng *Engine) runInventories(names []string) []*Obligation {
 			out = append(out, eng.inventoryMapRange()...)
 		case "nondet-source":
 			out = append(out, eng.inventoryNondet()...)
+		case "predefined-values":
+			out = append(out, eng.inventoryPredefined()...)
 		}
 	}
 	return out
@@ -567,7 +569,18 @@ func runZnWitness(repo, root, source string) string {
 		return "witness runner error: " + err.Error()
 	}
 	defer os.RemoveAll(dir)
-	progs, _ := json.Marshal([]map[string]string{{"name": "witness", "source": source}})
+	// a witness may be a sequence of programs run one after the other in the same process (state leaking from one
+	// execution into the next is what some findings are about); the last program's outcome is reported
+	parts := strings.Split(source, "\n-----next-program-----\n")
+	var list []map[string]string
+	for i, src := range parts {
+		name := fmt.Sprintf("pre%d", i+1)
+		if i == len(parts)-1 {
+			name = "witness"
+		}
+		list = append(list, map[string]string{"name": name, "source": src})
+	}
+	progs, _ := json.Marshal(list)
 	os.WriteFile(filepath.Join(dir, "in.json"), progs, 0o644)
 	ov := fmt.Sprintf(`{"Replace":{"%s/pkg/exec/zz_znrun_test.go":"%s/tools/znrun/znrun_test.go"}}`, repo, root)
 	os.WriteFile(filepath.Join(dir, "ov.json"), []byte(ov), 0o644)
